@@ -999,3 +999,173 @@ def r_unused(P, R):
             'exceptions: context-manager and PLY signatures, `**kw` of '
             'wrappers that take no options)', nontrivial=False)
 r_unused.NAME = 'R-UNUSED'
+
+
+def r_signblind(P, R):
+    """References are signed.  `abs(p) == q` identifies a function with
+    its negation; a set of `abs(r)` counts nodes, not references; neither
+    occurs on the pinned tree outside terminal tests (`abs(u) == 1`)."""
+    n = 0
+    for f in sorted(P.all_funcs(MODS), key=lambda f: f.qualname):
+        if not in_scope(P, R, f):
+            continue
+        abs_sets = dict()
+        for node in au.walk_no_defs(f.node):
+            if isinstance(node, ast.Compare) and len(node.ops) == 1 and \
+                    isinstance(node.ops[0], (ast.Eq, ast.NotEq)):
+                n += 1
+                a, b = node.left, node.comparators[0]
+                for x, y in ((a, b), (b, a)):
+                    if isinstance(x, ast.Call) and au.call_name(
+                            x) == 'abs' and au.const_int(y) is None and \
+                            not (isinstance(y, ast.Call) and au.call_name(
+                                y) == 'abs') and not isinstance(
+                                    y, ast.Constant):
+                        R.violation(
+                            'R-LOSSY', 'equality-modulo-complement',
+                            f.qualname, au.short(node, 40),
+                            f'`{au.short(node, 60)}` compares a reference '
+                            'with the sign removed from one side only: '
+                            'it holds for `p == q` and for `p == -q`, so '
+                            'a function is taken for its negation',
+                            unit=f.unit.rel, line=node.lineno)
+                        break
+            if isinstance(node, ast.Assign) and len(
+                    node.targets) == 1 and isinstance(
+                        node.targets[0], ast.Name) and isinstance(
+                            node.value, ast.SetComp) and au.is_abs_of(
+                                node.value.elt):
+                abs_sets[node.targets[0].id] = node
+        for node in au.walk_no_defs(f.node):
+            if isinstance(node, ast.Compare) and any(
+                    isinstance(x, ast.Call) and au.call_name(x) == 'len'
+                    and x.args and isinstance(x.args[0], ast.Name)
+                    and x.args[0].id in abs_sets
+                    for x in [node.left] + list(node.comparators)):
+                s = [x for x in [node.left] + list(node.comparators)
+                     if isinstance(x, ast.Call) and x.args and isinstance(
+                         x.args[0], ast.Name)
+                     and x.args[0].id in abs_sets][0]
+                R.violation(
+                    'R-LOSSY', 'references-counted-as-nodes', f.qualname,
+                    s.args[0].id,
+                    f'`{au.short(node, 60)}` counts the elements of '
+                    f'`{au.short(abs_sets[s.args[0].id].value, 50)}`: a '
+                    'function and its negation are two references to one '
+                    'node, so the count is one short whenever both are '
+                    'present', unit=f.unit.rel, line=node.lineno)
+    R.holds('R-LOSSY', f'comparisons behind {R.prop}',
+            f'{n} equality test(s): none compares abs() of a reference '
+            'with a reference', nontrivial=False)
+r_signblind.NAME = 'R-LOSSY(sign-blind)'
+
+
+def r_zip(P, R):
+    """`zip` pairs its arguments by position: an argument that is sorted,
+    reversed or turned into a set on the spot is no longer in the order
+    in which the other argument lists its partners."""
+    n = 0
+    for f in sorted(P.all_funcs(MODS), key=lambda f: f.qualname):
+        if not in_scope(P, R, f):
+            continue
+        for c in au.calls_in(f.node, 'zip'):
+            n += 1
+            re_ordered = [a for a in c.args if isinstance(
+                a, ast.Call) and au.call_name(a) in (
+                    'sorted', 'reversed', 'set', 'frozenset')]
+            plain = [a for a in c.args if a not in re_ordered]
+            if re_ordered and plain:
+                R.violation(
+                    'R-ARGS', 'misaligned-zip', f.qualname,
+                    au.short(c, 40),
+                    f'`{au.short(c, 70)}` pairs '
+                    f'`{au.short(re_ordered[0], 30)}` (re-ordered on the '
+                    f'spot) with `{au.short(plain[0], 30)}` (as given): '
+                    'the pairs are right only if the second was listed '
+                    'in that order already', unit=f.unit.rel,
+                    line=c.lineno)
+    R.holds('R-ARGS', f'zip() calls behind {R.prop}',
+            f'{n} call(s): arguments are paired as given',
+            nontrivial=False)
+r_zip.NAME = 'R-ARGS(zip)'
+
+
+UNDECLARED_OK = {
+    ('dd.dddmp', 'Lexer', 'lexer'): 'created by build(), the PLY idiom',
+    ('dd.dddmp', 'Parser', 'bdd_name'): 'optional header field',
+}
+
+
+def r_attrs(P, R):
+    """State lives in the attributes that `__init__` (or `reset`) creates.
+    An assignment to `self.<name>` for a name nobody declared creates a new
+    attribute and leaves the intended one as it was (`self.last_len = None`
+    for `self._last_len`)."""
+    n = 0
+    for mod in sorted(MODS):
+        u = P.units.get(mod)
+        if u is None:
+            continue
+        for cname, cls in sorted(u.classes.items()):
+            methods = P.methods(mod, cname)
+            if not any(in_scope(P, R, m) for m in methods):
+                continue
+            decl = set()
+            for s in cls.body:
+                if isinstance(s, ast.Assign):
+                    decl |= {t.id for t in s.targets
+                             if isinstance(t, ast.Name)}
+                elif isinstance(s, ast.AnnAssign) and isinstance(
+                        s.target, ast.Name):
+                    decl.add(s.target.id)
+                elif isinstance(s, (ast.FunctionDef,
+                                    ast.AsyncFunctionDef)):
+                    decl.add(s.name)
+            # inherited declarations (one level, same package)
+            for b in cls.bases:
+                ch = au.chain(b) or []
+                for m2 in sorted(MODS):
+                    u2 = P.units.get(m2)
+                    if u2 is not None and ch and ch[-1] in u2.classes:
+                        for mm in P.methods(m2, ch[-1]):
+                            if mm.name in ('__init__', 'reset',
+                                           '_reset_state'):
+                                decl |= _self_stores(mm.node)
+            for m in methods:
+                if m.name in ('__init__', 'reset', '_reset_state',
+                              '__new__'):
+                    decl |= _self_stores(m.node)
+            for m in methods:
+                for x in au.walk_no_defs(m.node):
+                    if isinstance(x, ast.Attribute) and isinstance(
+                            x.ctx, ast.Store) and au.chain(x) and \
+                            au.chain(x)[0] == 'self' and len(
+                                au.chain(x)) == 2:
+                        n += 1
+                        if x.attr in decl or (mod, cname, x.attr) in \
+                                UNDECLARED_OK:
+                            continue
+                        near = sorted(d for d in decl if d.strip(
+                            '_') == x.attr.strip('_'))
+                        R.violation(
+                            'R-WRITERS', 'undeclared-attribute',
+                            m.qualname, x.attr,
+                            f'`self.{x.attr} = ...` in {m.name}: no '
+                            f'`__init__` / `reset` of {cname} creates '
+                            f'`{x.attr}`' + (
+                                f' (it creates `{near[0]}`)' if near
+                                else '') + ': the assignment makes a new '
+                            'attribute and the state it was meant to '
+                            'change stays as it was', unit=m.unit.rel,
+                            line=x.lineno)
+    R.holds('R-WRITERS', f'classes behind {R.prop}',
+            f'{n} assignment(s) to attributes of self, each to a declared '
+            'attribute', nontrivial=False)
+r_attrs.NAME = 'R-WRITERS(declared attributes)'
+
+
+def _self_stores(fn):
+    return {x.attr for x in au.walk_no_defs(fn)
+            if isinstance(x, ast.Attribute) and isinstance(
+                x.ctx, ast.Store) and au.chain(x)
+            and au.chain(x)[0] == 'self' and len(au.chain(x)) == 2}
